@@ -5,6 +5,7 @@ import vsched "github.com/goptics/varmq/internal/zzverif/vsched"
 // Native bodies of the harness API for replay builds (the encoder sees vapi.go instead).
 
 func vNondetInt() int           { return vsched.NondetInt() }
+func vNondetRange(lo, hi int) int { return vsched.NondetInt() }
 func vNondetBool() bool         { return vsched.NondetBool() }
 func vNondetUint8() uint8       { return vsched.NondetUint8() }
 func vNondetString() string     { return vsched.NondetString() }
